@@ -8,6 +8,7 @@ import (
 	"os"
 	"path/filepath"
 	"reflect"
+	"sort"
 	"strconv"
 	"strings"
 
@@ -673,6 +674,43 @@ func init() {
 			}
 		}
 		return strings.Join(out, " ")
+	}
+	// tfieldnames kind: the Go names of ALL fields that lie inside the struct-typed fields of a typed document type, at any
+	// depth, exported or not (version.Version has Epoch ..., a cache struct has whatever it has).  The generators use them
+	// as names of UNKNOWN fields: a decoder that walks into such a field instead of looking up its key shows up at once.
+	ops["tfieldnames"] = func(a []string) string {
+		z, ok := probe.Types[arg(a, 0)]
+		if !ok {
+			return "no-such-type"
+		}
+		seen := map[string]bool{}
+		var walk func(t reflect.Type, depth int, top bool)
+		walk = func(t reflect.Type, depth int, top bool) {
+			for t.Kind() == reflect.Ptr || t.Kind() == reflect.Slice {
+				t = t.Elem()
+			}
+			if t.Kind() != reflect.Struct || depth > 4 {
+				return
+			}
+			for i := 0; i < t.NumField(); i++ {
+				f := t.Field(i)
+				if !top {
+					seen[f.Name] = true
+				}
+				if f.Anonymous && top {
+					walk(f.Type, depth+1, f.Type.Name() != "Paragraph")
+					continue
+				}
+				walk(f.Type, depth+1, false)
+			}
+		}
+		walk(reflect.TypeOf(z), 0, true)
+		names := []string{}
+		for n := range seen {
+			names = append(names, hx(n))
+		}
+		sort.Strings(names)
+		return showList(names)
 	}
 	ops["tdocfile"] = func(a []string) string {
 		text := arg(a, 1)
